@@ -122,6 +122,13 @@ def run_in_child(fn, arg, timeout=None):
                 pass
             faulthandler.dump_traceback_later(timeout, exit=True)
             _limit_memory()
+            cov = None
+            if os.environ.get("VERIF_COVERAGE"):     # reach measurement only (tools/reach.sh); never set by a registered command
+                import coverage
+
+                cov = coverage.Coverage(data_file=os.path.join(os.environ["VERIF_COVERAGE"], "cov"), data_suffix=True, branch=True,
+                                        include=[os.path.join(os.environ.get("VERIF_REPO", "/repo"), "wavespectra", "*")])
+                cov.start()
             try:
                 res = fn(arg)
             except BaseException as exc:  # harness failure, never a verdict
@@ -130,6 +137,9 @@ def run_in_child(fn, arg, timeout=None):
                     "error": f"{type(exc).__name__}: {exc}",
                     "traceback": traceback.format_exc()[-4000:],
                 }
+            if cov is not None:
+                cov.stop()
+                cov.save()
             send_msg(w, res)
         except BaseException:
             code = 3
